@@ -15,6 +15,8 @@ from ..pyback import Scratch, quiet_stderr
 PID = "C15"
 
 WORDS = ["Pen", "Zoo", "Monkey", "BoxLid"]
+# conforming names with one-letter words (only where names are not concatenated: a capital next to a capital would be an acronym)
+WORDS_B = ["PointA", "Cd", "LongNameHere", "Q"]
 PREFIXES = [None, "my_prefix_", "ab_"]
 
 
@@ -35,7 +37,8 @@ def skeletons():
             ("const", "SOF", "1"), ("const", "PEN_ARRAY_SIZE", "2"),
             ("enum", "Color", [("COLOR_UNKNOWN", 0), ("COLOR_RED", 1)]),
             ("alias", "Timestamp", "int64"),
-            ("msg", n[0], [], [("bool", "ok", 1), ("uint7", "lucy_number", 2), ("Color", "color", 3), ("Timestamp[PEN_ARRAY_SIZE]", "ts", 4)]),
+            ("msg", n[0], [], [("bool", "ok", 1), ("uint7", "lucy_number", 2), ("Color", "color", 3), ("Timestamp[PEN_ARRAY_SIZE]", "ts", 4),
+                               ("bool", "x", 5), ("bool", "is_ok", 6), ("uint3", "a_b_c", 7)]),
             ("msg", n[1], [], [("%s" % n[0], "first", 1), ("%s[2]" % n[0], "many", 2)]),
         ]})
 
@@ -81,6 +84,9 @@ def states(tier):
         for perm in perms:
             for prefix in PREFIXES:
                 out.append((sname, perm, prefix))
+    for pair in itertools.permutations(WORDS_B, 2):
+        for prefix in PREFIXES:
+            out.append(("flat", tuple(pair) + ("Zoo", "Pen"), prefix))
     return out
 
 
